@@ -17,6 +17,7 @@ import (
 	"strconv"
 	"strings"
 	"sync"
+	"sync/atomic"
 	"time"
 )
 
@@ -71,6 +72,10 @@ type Ctx struct {
 	perKey   map[string]int
 	start    time.Time
 	out      string
+	// CaseTimeout is the watchdog limit for one enumerated case (0 disables it).
+	CaseTimeout time.Duration
+	wmu         sync.Mutex
+	live        map[*W]struct{}
 }
 
 // W is a worker-local accumulator (no locking on the hot path).
@@ -85,6 +90,8 @@ type W struct {
 	nviol   int64
 	vkeys   map[string]int
 	samples []interface{}
+	t0      int64 // start of the running case (unix nanoseconds, 0 = idle); read by the watchdog
+	cur     int64 // index of the running case
 }
 
 // Main parses the common flags, runs the check and writes the report.
@@ -104,6 +111,11 @@ func Main(property string, run func(c *Ctx)) {
 	}
 	fmt.Sscanf(*shard, "%d/%d", &c.shardI, &c.shardN)
 	c.Rep = &Report{Property: property, Config: *cfg, Tier: *tier, Seed: *seed, Classes: map[string]int64{}, Subs: map[string]int64{}, Exhaustive: true, Extra: map[string]interface{}{}}
+	c.CaseTimeout = 300 * time.Second
+	if v, err := strconv.Atoi(os.Getenv("VERIF_CASE_TIMEOUT")); err == nil && v > 0 {
+		c.CaseTimeout = time.Duration(v) * time.Second
+	}
+	go c.watchdog()
 	func() {
 		defer func() {
 			if r := recover(); r != nil {
@@ -117,8 +129,65 @@ func Main(property string, run func(c *Ctx)) {
 	c.Finish()
 }
 
+// watchdog turns a case that does not return into a violation ("hang") instead of a driver timeout: every
+// enumerated case takes micro- to milliseconds (the slowest, scheduler explorations of one program, seconds), so a
+// case still running after CaseTimeout (default 300 s, VERIF_CASE_TIMEOUT) is a non-terminating library call.  The
+// report written is what the finished workers have merged so far plus the hanging case.
+func (c *Ctx) watchdog() {
+	for {
+		time.Sleep(2 * time.Second)
+		if c.CaseTimeout <= 0 {
+			continue
+		}
+		now := time.Now().UnixNano()
+		c.wmu.Lock()
+		var hung *W
+		for w := range c.live {
+			if t := atomic.LoadInt64(&w.t0); t != 0 && now-t > int64(c.CaseTimeout) {
+				hung = w
+				break
+			}
+		}
+		c.wmu.Unlock()
+		if hung == nil {
+			continue
+		}
+		c.mu.Lock()
+		c.Rep.NViolations++
+		c.Rep.Violations = append(c.Rep.Violations, Violation{Sub: hung.sub, Index: int(atomic.LoadInt64(&hung.cur)), Key: "hang", Config: c.Config,
+			Desc: fmt.Sprintf("case did not return within %v (non-terminating call)", c.CaseTimeout)})
+		c.Rep.Exhaustive = false
+		c.mu.Unlock()
+		c.Finish()
+	}
+}
+
+func (c *Ctx) track(w *W) {
+	c.wmu.Lock()
+	if c.live == nil {
+		c.live = map[*W]struct{}{}
+	}
+	c.live[w] = struct{}{}
+	c.wmu.Unlock()
+}
+
+func (c *Ctx) untrack(w *W) {
+	c.wmu.Lock()
+	delete(c.live, w)
+	c.wmu.Unlock()
+}
+
+func (w *W) begin(i int) {
+	w.idx = i
+	atomic.StoreInt64(&w.cur, int64(i))
+	atomic.StoreInt64(&w.t0, time.Now().UnixNano())
+}
+
+func (w *W) end() { atomic.StoreInt64(&w.t0, 0) }
+
 // Finish writes the report and exits (0 ok, 1 violations, 2 broken).
 func (c *Ctx) Finish() {
+	c.mu.Lock() // never released: the process exits below (keeps late merges out of the report being written)
 	r := c.Rep
 	r.WallS = time.Since(c.start).Seconds()
 	sort.SliceStable(r.Violations, func(i, j int) bool {
@@ -241,7 +310,8 @@ func (c *Ctx) par(sub string, n int, f func(w *W, i int), always bool) {
 		}
 		w := &W{c: c, sub: sub, classes: map[string]int64{}}
 		if c.onlyIdx >= 0 && c.onlyIdx < n {
-			w.idx = c.onlyIdx
+			c.track(w)
+			w.begin(c.onlyIdx)
 			func() {
 				defer func() {
 					if r := recover(); r != nil {
@@ -252,6 +322,8 @@ func (c *Ctx) par(sub string, n int, f func(w *W, i int), always bool) {
 				}()
 				f(w, c.onlyIdx)
 			}()
+			w.end()
+			c.untrack(w)
 		}
 		c.merge(w)
 		return
@@ -279,6 +351,8 @@ func (c *Ctx) par(sub string, n int, f func(w *W, i int), always bool) {
 			if !discard {
 				defer c.merge(w)
 			}
+			c.track(w)
+			defer c.untrack(w)
 			for {
 				nmu.Lock()
 				lo := int(next)
@@ -295,7 +369,7 @@ func (c *Ctx) par(sub string, n int, f func(w *W, i int), always bool) {
 					if !discard && c.shardN > 1 && i%c.shardN != c.shardI {
 						continue
 					}
-					w.idx = i
+					w.begin(i)
 					func() {
 						defer func() {
 							if r := recover(); r != nil {
@@ -306,6 +380,7 @@ func (c *Ctx) par(sub string, n int, f func(w *W, i int), always bool) {
 						}()
 						f(w, i)
 					}()
+					w.end()
 				}
 			}
 		}()
@@ -317,6 +392,8 @@ func (c *Ctx) par(sub string, n int, f func(w *W, i int), always bool) {
 func (c *Ctx) Seq(sub string, n int, f func(w *W, i int)) {
 	w := &W{c: c, sub: sub, classes: map[string]int64{}}
 	defer c.merge(w)
+	c.track(w)
+	defer c.untrack(w)
 	for i := 0; i < n; i++ {
 		if c.onlySub != "" && (c.onlySub != sub || c.onlyIdx != i) {
 			continue
@@ -324,8 +401,9 @@ func (c *Ctx) Seq(sub string, n int, f func(w *W, i int)) {
 		if c.onlySub == "" && c.shardN > 1 && i%c.shardN != c.shardI {
 			continue
 		}
-		w.idx = i
+		w.begin(i)
 		f(w, i)
+		w.end()
 	}
 }
 
